@@ -88,6 +88,38 @@ fn main() {
                     _ => out.fail(&case, "write-differs", &format!("query {}: {} and the string form disagree on success ({:?} / {:?})", qi, label, got.as_ref().map(|_| "ok"), want.as_ref().map(|_| "ok"))),
                 }
             }
+            // a normaliser rewrites text and attribute values; a namespace name is an identifier and is written as it is: with
+            // a normaliser that upper-cases ASCII letters every name read back is in the namespace it was in
+            if qi == 0 && xot.is_element(node) {
+                struct Upper;
+                impl xot::output::Normalizer for Upper {
+                    fn normalize<'a>(&self, content: std::borrow::Cow<'a, str>) -> std::borrow::Cow<'a, str> { content.to_ascii_uppercase().into() }
+                }
+                if let Ok(Ok(s)) = guard(|| xot.serialize_xml_string_with_normalizer(xot::output::xml::Parameters::default(), node, Upper)) {
+                    let mut x2 = Xot::new();
+                    if let Ok(Ok(doc)) = guard(|| x2.parse(&s)) {
+                        let names = |x: &Xot, top: Node| -> Vec<(String, String)> {
+                            let mut v = vec![];
+                            for d in x.descendants(top) {
+                                if let Some(e) = x.element(d) {
+                                    let (l, u) = x.name_ns_str(e.name()); v.push((u.to_string(), l.to_string()));
+                                    let mut av: Vec<(String, String)> = x.attributes(d).keys().map(|k| { let (l, u) = x.name_ns_str(k); (u.to_string(), l.to_string()) }).collect();
+                                    av.sort();
+                                    v.extend(av);
+                                }
+                            }
+                            v
+                        };
+                        let want = names(&xot, node);
+                        let got = names(&x2, x2.document_element(doc).unwrap());
+                        stats.bump("normaliser.upper_case_reparsed");
+                        if want != got {
+                            let i = want.iter().zip(got.iter()).position(|(a, b)| a != b).unwrap_or(want.len().min(got.len()));
+                            out.fail(&case, "normaliser-changed-a-name", &format!("query {}: with an upper-casing normaliser the name {:?} is read back as {:?} — written {:?}", qi, want.get(i), got.get(i), s));
+                        }
+                    }
+                }
+            }
             // a writer that fails after k bytes: an error, not a panic
             if let Ok(Ok(sr)) = guard(|| xot.to_string(node)) {
                 for k in [0usize, 1, sr.len() / 2, sr.len().saturating_sub(1)] {
